@@ -764,3 +764,124 @@ def rule_single_owner(ctx, P, r):
                     else:
                         r.ok(inst + '; the caller does not free it again on those paths', func=f.name, loc=c.loc)
     return n
+
+
+# ---------------------------------------------------------------- R06f list bitmaps
+def rule_list_bitmaps(ctx, P, r, units=None):
+    """convert_list_to_bitmap builds its 64-bit result from `1 << idx` in int arithmetic: for index 31 the sign extension sets
+    bits 31..63.  That is harmless as long as every consumer tests single bits (`bm & (1 << i)`, i < 32); any whole-word consumer
+    (population count, comparison, shift, arithmetic) sees 33 elements for a list that names fragment 31."""
+    from ..chains import OUT_OF_SCOPE
+    def single_bit(fn, v, depth=0):
+        v = strip_int_casts(fn, v)
+        d = fn.defs.get(v)
+        if d is None or depth > 6:
+            return False
+        if d.op == 'shl' and d.ops[0] == '1':
+            return True
+        if d.op in ('sext', 'zext', 'trunc'):
+            return single_bit(fn, d.ops[0], depth + 1)
+        if d.op == 'load':
+            root, steps = access_path(P, fn, d.ops[0])
+            return bool(root) and 'bit_lookup' in root
+        return False
+    n = 0
+    # the hazard exists only while the helper shifts in 32-bit signed arithmetic and sign-extends the result
+    hazard = False
+    for fn in P.fns.values():
+        if fn.name.startswith('@convert_list_to_bitmap'):
+            for i in fn.insts():
+                if i.op == 'sext' and i.ty == 'i64':
+                    d = fn.defs.get(i.ops[0])
+                    if d is not None and d.op == 'shl' and d.ty == 'i32':
+                        hazard = True
+    if not hazard:
+        r.ok('convert_list_to_bitmap shifts in 64-bit arithmetic: whole-word consumers are safe', loc='include/erasurecode/erasurecode_helpers.h')
+    for name, fn in sorted(P.fns.items()):
+        if not hazard:
+            break
+        if OUT_OF_SCOPE.search(fn.mod.src) or (units and fn.mod.src not in units):
+            continue
+        T = {i.res for i in fn.insts() if i.op == 'call' and i.callee.startswith('@convert_list_to_bitmap') and i.res}
+        if not T:
+            continue
+        changed = True
+        while changed:
+            changed = False
+            for i in fn.insts():
+                if i.res and i.res not in T:
+                    ops = i.ops if i.op != 'phi' else [v for v, _ in i.incoming]
+                    if i.op in ('or', 'phi', 'select', 'sext', 'zext', 'trunc') and any(o in T for o in ops):
+                        T.add(i.res); changed = True
+        for i in fn.insts():
+            ops = i.ops if i.op != 'phi' else [v for v, _ in i.incoming]
+            if not any(o in T for o in ops) or i.res in T:
+                continue
+            n += 1
+            inst = f'{name}: use of the list bitmap at line {i.line}'
+            if i.op == 'and' and any(single_bit(fn, o) for o in i.ops if o not in T):
+                r.ok(inst + ': single-bit test', func=name, loc=i.loc)
+            else:
+                what = i.callee if i.op == 'call' else i.op
+                r.fail(inst, func=name, sig=f'whole-word use of a list bitmap: {what}', loc=i.loc,
+                       msg=f'the result of convert_list_to_bitmap is consumed as a whole word ({what}): for a list naming fragment 31 the int shift in '
+                           'convert_list_to_bitmap sign-extends and bits 32..63 are set too, so counts / comparisons are off by 32')
+    return n
+
+
+# ---------------------------------------------------------------- R05i bitmap accumulation
+def rule_bitmap_accumulation(ctx, P, r):
+    """a loop-carried value that starts at 0 and receives bit-valued contributions (1 << x, *_bit_lookup[x]) in the loop must
+    combine each contribution with its previous value; otherwise only the last list element survives"""
+    from ..chains import OUT_OF_SCOPE
+    from ..cfg import natural_loops
+    def bitlike(fn, v):
+        v = strip_int_casts(fn, v)
+        d = fn.defs.get(v)
+        if d is None:
+            return False
+        if d.op == 'shl' and d.ops[0] == '1':
+            return True
+        if d.op == 'load':
+            root, steps = access_path(P, fn, d.ops[0])
+            return bool(root) and 'bit_lookup' in root
+        return d.op == 'call' and d.callee in ('@data_bit_lookup', '@parity_bit_lookup')
+    def has_bit(fn, x, depth=0):
+        x = strip_int_casts(fn, x)
+        dd = fn.defs.get(x)
+        if dd is None or depth > 5:
+            return False
+        if bitlike(fn, x):
+            return True
+        if dd.op in ('or', 'and', 'xor', 'select', 'phi'):
+            ops = dd.ops if dd.op != 'phi' else [q for q, _ in dd.incoming]
+            return any(has_bit(fn, o, depth + 1) for o in ops if isinstance(o, str) and o.startswith('%'))
+        return False
+    def depends(fn, v, target, depth=0, seen=None):
+        seen = seen if seen is not None else set()
+        v = strip_int_casts(fn, v)
+        if v == target:
+            return True
+        if v in seen or depth > 12:
+            return False
+        seen.add(v)
+        d = fn.defs.get(v)
+        if d is None:
+            return False
+        ops = d.ops if d.op != 'phi' else [x for x, _ in d.incoming]
+        return any(isinstance(o, str) and o.startswith('%') and depends(fn, o, target, depth + 1, seen) for o in ops)
+    for name, fn in sorted(P.fns.items()):
+        if OUT_OF_SCOPE.search(fn.mod.src):
+            continue
+        for h, body in natural_loops(fn).items():
+            for phi in [i for i in h.insts if i.op == 'phi' and not i.ty.endswith('*')]:
+                inits = [v for v, l in phi.incoming if fn.blocks[l] not in body]
+                lat = [v for v, l in phi.incoming if fn.blocks[l] in body]
+                if inits != ['0'] or not lat or not any(has_bit(fn, v) for v in lat):
+                    continue
+                inst = f'{name}: bitmap {phi.res} assembled in the loop at line {h.insts[-1].line}'
+                if all(depends(fn, v, phi.res) for v in lat):
+                    r.ok(inst + ' accumulates (previous value is combined in)', func=name, loc=h.insts[-1].loc)
+                else:
+                    r.fail(inst, func=name, sig='bitmap overwritten in a loop instead of accumulated', loc=h.insts[-1].loc,
+                           msg='each iteration overwrites the bitmap with the bit of the current list element: after the loop only the last element is set')
